@@ -14,13 +14,16 @@ CONSTANTS MaxParams, EditParams
 E == <<195, 169>>
 \* (classes whose obfuscated name is a primitive KEYWORD: only object types are looked up, `I` stays `int`)
 MapLines == <<ClassAst(B("com.X"), B("x")), ClassAst(B("com.Lng"), B("ib.Long")), ClassAst(B("com.Other"), B("o")),
-              ClassAst(B("com.Widget"), B("int")), ClassAst(B("com.Sink"), B("void")), ClassAst(B("com.Lng2"), B("long"))>>
+              ClassAst(B("com.Widget"), B("int")), ClassAst(B("com.Sink"), B("void")), ClassAst(B("com.Lng2"), B("long")),
+              \* a class that is also a package: names are compared as strings ('$' sorts below '.'), not segment by segment
+              ClassAst(B("com.O$C"), B("o$c")), ClassAst(B("com.O$D"), B("o$d")), ClassAst(B("com.pkg.E"), B("o.e")),
+              ClassAst(B("com.pkg.F"), B("o.f")), ClassAst(B("com.pkg.G"), B("o.g"))>>
 RECURSIVE PrintLines(_)
 PrintLines(ls) == IF ls = <<>> THEN <<>> ELSE PrintAst(Head(ls)) \o <<10>> \o PrintLines(Tail(ls))
 MapSrc == PrintLines(MapLines)
 MapBlocks == Blocks([k \in 1..Len(MapLines) |-> Denotes(MapLines[k])])
 
-ParamTypes == {Prim(0, 73), Prim(0, 74), Obj(0, B("x")), Obj(0, B("I")), Obj(0, B("ib/Long")), Obj(2, E \o B("/b")), Obj(1, B("int")), Obj(0, B("p/G<T>")), Obj(0, B("x$In")), Obj(0, B("p/S(old)"))}    \* (x is mapped, x$In is not: it keeps its name)      \* (JVMS 4.2.2 forbids only . ; [ / in a class name)
+ParamTypes == {Prim(0, 73), Prim(0, 74), Obj(0, B("x")), Obj(0, B("I")), Obj(0, B("ib/Long")), Obj(2, E \o B("/b")), Obj(1, B("int")), Obj(0, B("p/G<T>")), Obj(0, B("x$In")), Obj(0, B("p/S(old)")), Obj(0, B("o$d")), Obj(0, B("o/e"))}    \* (x is mapped, x$In is not: it keeps its name)      \* (JVMS 4.2.2 forbids only . ; [ / in a class name)
 RetTypes == {Prim(0, 86), Prim(0, 73), Prim(1, 74), Obj(0, B("x")), Obj(0, B("Long")), Obj(1, E \o B("/b"))}
 
 EditChars == {40, 41, 59, 76, 91, 73, 86, 120}    \* ( ) ; L [ I V x
